@@ -11,8 +11,11 @@ package main
 // the same number of times on every path counts for that many recursive calls.
 
 import (
+	"fmt"
+	"go/token"
 	"go/types"
 	"sort"
+	"strings"
 
 	"golang.org/x/tools/go/ssa"
 )
@@ -448,4 +451,98 @@ func (w *World) typeWalkRecCalls(fn *ssa.Function) []*ssa.Call {
 		}
 	}
 	return out
+}
+
+// ---- C16.R5: extraction is a function of its argument ----
+
+// extractionRoots: the exported package-level functions that build name/type
+// maps: they return one, or fill one they are given, or are the value walk.
+func (w *World) extractionRoots() []*ssa.Function {
+	isMapT := func(t types.Type) bool {
+		ts := typeStr(t)
+		return ts == "map[string]string" || ts == "map[string]reflect.Type"
+	}
+	var out []*ssa.Function
+	for _, fn := range w.SrcFuncs() {
+		if fn.Parent() != nil || fn.Signature.Recv() != nil || !token.IsExported(fn.Name()) {
+			continue
+		}
+		is := false
+		res := fn.Signature.Results()
+		for i := 0; i < res.Len(); i++ {
+			if isMapT(res.At(i).Type()) {
+				is = true
+			}
+		}
+		if !is {
+			// fills a map parameter (directly or in what it reaches statically)
+			for _, p := range fn.Params {
+				if !isMapT(p.Type()) {
+					continue
+				}
+				for g := range w.reachStaticPkg(fn) {
+					for _, b := range g.Blocks {
+						for _, in := range b.Instrs {
+							if mu, ok := in.(*ssa.MapUpdate); ok {
+								if _, isP := mu.Map.(*ssa.Parameter); isP && isMapT(mu.Map.Type()) {
+									is = true
+								}
+							}
+						}
+					}
+				}
+			}
+		}
+		if !is && isTypeWalker(fn) {
+			is = true
+		}
+		if is {
+			out = append(out, fn)
+		}
+	}
+	if ev := w.fn("ExtractValue"); ev != nil {
+		out = append(out, ev)
+	}
+	return out
+}
+
+// ruleExtractionStateless: no function the extraction reaches touches
+// package-level state that is written after initialisation.  A memo kept in a
+// package variable (also a synchronised one: the race is not the point) makes
+// the maps returned for one argument depend on which arguments were extracted
+// before — the maps are no longer a function of the value they are taken from.
+func (w *World) ruleExtractionStateless(r *Report, rule string) {
+	roots := w.extractionRoots()
+	if len(roots) == 0 {
+		r.undecided(rule, "extraction entry points", "-", "no exported function building a name/type map found")
+		return
+	}
+	r.role("extraction entry points", fnNames(roots))
+	reach := w.reachPkg(roots...)
+	writes, _ := w.globalWrites()
+	n := 0
+	var gs []*ssa.Global
+	for g := range writes {
+		gs = append(gs, g)
+	}
+	sort.Slice(gs, func(i, j int) bool { return gs[i].Name() < gs[j].Name() })
+	for _, g := range gs {
+		var sites []string
+		for _, gw := range writes[g] {
+			if reach[gw.fn] || reach[rootFn(gw.fn)] {
+				sites = append(sites, fmt.Sprintf("%s (%s at %s)", fnName(gw.fn), gw.what, gw.pos))
+			}
+		}
+		if len(sites) == 0 {
+			continue
+		}
+		n++
+		sort.Strings(sites)
+		r.add(rule, "package variable "+g.Name(), w.pos(g.Pos()), false, "mutable package-level state on the extraction path: "+strings.Join(uniq(sites), "; ")+" — what an extraction returns depends on the extractions made before it")
+	}
+	if n == 0 {
+		o := r.add(rule, "census", "-", true, fmt.Sprintf("%d functions reachable from %d extraction entry points: none writes to (or hands to a mutating callee) memory reachable from a package-level variable", len(reach), len(roots)))
+		o.Trivial = len(reach) == 0
+	}
+	r.floor(rule+" (entry points)", len(roots), 4)
 }
